@@ -353,7 +353,7 @@ def compile_battery(prop, name, ob, repo, work):
     return run_compile_battery(repo)
 
 
-SEQ_IMPORTS = ("fmt", "math/rand", "github.com/bilibili/gengine/builder")
+SEQ_IMPORTS = ("fmt", "strings", "math/rand", "github.com/bilibili/gengine/builder")
 
 
 def run_seq_battery(repo, seed=1, count=150):
@@ -363,6 +363,30 @@ def run_seq_battery(repo, seed=1, count=150):
 @adapter(r"^engine\.\(\*Gengine\)\.(Execute|ExecuteWithStopTagDirect|ExecuteSelectedRules|ExecuteSelectedRulesWithControl|ExecuteSelectedRulesWithControlAndStopTag)(\$\d+)?:")
 def seq_battery(prop, name, ob, repo, work):
     return run_seq_battery(repo)
+
+
+MODEL_IMPORTS = ("fmt", "sort", "strings", "time", "math/rand", "github.com/bilibili/gengine/builder")
+
+
+def run_model_battery(repo, seed=1, count=40):
+    return run_scenario(repo, battery_source("model_battery.go.txt", seed, count), "Test_Replay", imports=MODEL_IMPORTS)
+
+
+@adapter(r"^engine\.\(\*Gengine\)\.Execute\w*(\$\d+)*:|^base\.\(\*(ConcStatement|FunctionCall|MethodCall|ThreeLevelCall|RuleEntity)\)\.(Evaluate|Execute)(\$\d+)*:")
+def model_battery(prop, name, ob, repo, work):
+    return run_model_battery(repo)
+
+
+POOL_IMPORTS = ("sync", "sync/atomic", "time")
+
+
+def run_pool_battery(repo, seed=1, count=0):
+    return run_scenario(repo, battery_source("pool_battery.go.txt", seed, count), "Test_Replay", imports=POOL_IMPORTS)
+
+
+@adapter(r"^engine\.NewGenginePool:|^engine\.\(\*GenginePool\)\.(getGengine|putGengineLocked|prepare\w*|SetExecModel|GetExecModel|Execute\w*)(\$\d+)*:")
+def pool_battery(prop, name, ob, repo, work):
+    return run_pool_battery(repo)
 
 
 STMT_IMPORTS = ("fmt", "sort", "strings", "github.com/bilibili/gengine/builder", "github.com/bilibili/gengine/context")
